@@ -167,7 +167,7 @@ func ParseStreamCallback(reader io.Reader, c Config, callback ParseCallback) err
 func (p Parser) ParseStream(reader io.Reader) {
 	if err := ParseStreamCallback(reader, p.config, func(n *shared.ParserNode, err error) (stop bool, cbError error) {
 		if err != nil {
-			p.Errors <- err
+			// stop parsing; the error is sent once, below
 			return true, err
 		}
 		p.Nodes <- n
